@@ -29,7 +29,10 @@ EXTRA_PROPS = {
     'C01.hdr.field': ['C09'],              # REPLY_SERIAL 0 accepted: a reply that the gate does not recognise as one (seed2 C09-4)
     'C15.load_message_fds': ['C10', 'C11'],  # fd count compared with the wrong quantity: daemon crash / chunk-dependent corruption (seed2 C10-4, C11-3)
     'C15.load_message_fds_atomic': ['C10', 'C11'],
-    'C10.do_reading.bytes': ['C11'],       # read-size hint ignored (seed2 C11-4)    # rule removed before the ack is staged (seed2 C14-1)
+    'C10.do_reading.bytes': ['C11'],
+    'C07.parse': ['C16'],                  # each match-rule key validated by the grammar the specification names (seed2 C16-4)
+    'C11.F4.loader_buffer': ['C15'],       # read-size hint while fds are pending (seed2 C15-4)
+    'C11.F4.loader_buffer_full': ['C15'],       # read-size hint ignored (seed2 C11-4)    # rule removed before the ack is staged (seed2 C14-1)
 }
 # loop-free units that take ~1 s: a short timeout so that the 'function grew a loop' retry (tool/core.py) starts early
 TIMEOUT = {'C12.edit.set_field': 120, 'C14.hdr_edit.set_field': 120, 'C12.edit.delete_field': 120, 'C14.hdr_edit.delete_field': 120}
